@@ -323,6 +323,11 @@ class Subject:
         if op.get('tree'):
             r['tree'] = tree_digest(s._module_node)
             r['tree_fresh'] = fresh_tree_digest(op.get('code'), s)
+            if r['tree'] != r['tree_fresh'] and self.spec.get('reset_diverged'):
+                import parso.cache as pc
+                for d in pc.parser_cache.values():
+                    d.pop(s.path if s.path is None else str(s.path), None)
+                    d.pop(s.path, None)
         del s
         return r
 
